@@ -41,7 +41,7 @@ fn sizes(tier: Tier) -> &'static Sizes {
     static Q: OnceLock<Sizes> = OnceLock::new();
     static T: OnceLock<Sizes> = OnceLock::new();
     let (cell, la, lb, nfiles) = match tier {
-        Tier::Quick => (&Q, 4, 2, 40usize),
+        Tier::Quick => (&Q, 4, 3, 120usize),
         Tier::Thorough => (&T, 5, 3, usize::MAX),
     };
     cell.get_or_init(|| {
